@@ -128,12 +128,12 @@ Definition exec_state (s : state) (e : env) (t : otx) (o : oracle) : state :=
               apply_int s'' (o_int o) in
   let gf := gas_final g o in
   let s4 := add_bal s3 from (gf * t_price t) in
-  let s5 := if o_failed o then s4 else restore_dead s s4 (o_dead o) in
+  let s5 := if o_failed o then s4 else restore_dead s4 (o_dead o) in
   add_pool s5 (t_price t * (g - gf)).
 
 Definition passes (s : state) (e : env) (t : otx) : Prop :=
   e_dup e = false /\
-  nonce_of s (t_from t) <= t_nonce t /\
+  nonce_of s (t_from t) = t_nonce t /\
   e_sender_code e = false /\
   gas_u64 t * t_price t <= balance s (t_from t) /\
   gas_u64 t <= e_block_gas e /\
@@ -167,6 +167,7 @@ Proof.
   destruct (e_dup e) eqn:Edup; [left; simpl; repeat split; auto; notpass Edup|].
   unfold handler, transition.
   rewrite !evm_nonce_eq, !evm_view_eq.
+  destruct (nonce_of s (t_from t) <? t_nonce t) eqn:E0; [left; simpl; repeat split; auto; notpass E0|].
   destruct (t_nonce t <? nonce_of s (t_from t)) eqn:E1; [left; simpl; repeat split; auto; notpass E1|].
   destruct (e_sender_code e) eqn:E2; [left; simpl; repeat split; auto; notpass E2|].
   destruct (balance s (t_from t) <? gas_u64 t * t_price t) eqn:E3; [left; simpl; repeat split; auto; notpass E3|].
@@ -180,7 +181,7 @@ Proof.
             (balance s (t_from t) + - (gas_u64 t * t_price t) <? t_value t)) eqn:E6;
     [left; simpl; repeat split; auto; notpass Eig|].
   (* executed *)
-  apply Z.ltb_ge in E1, E3, E4, E5.
+  apply Z.ltb_ge in E0, E1, E3, E4, E5.
   assert (Hg : gas_u64 t = t_gas t).
   { unfold gas_u64 in *. unfold MaxInt64 in Hbg.
     assert (0 <= t_gas t mod 2^64 < 2^64) by (apply Z.mod_pos_bound; lia).
@@ -221,15 +222,39 @@ Proof.
 Qed.
 
 
-Lemma no_dead_id o pre X :
-  selfdestructs o = false -> (if o_failed o then X else restore_dead pre X (o_dead o)) = X.
+Lemma balance_restore_dead l : forall s a, balance (restore_dead s l) a = balance s a.
 Proof.
-  unfold selfdestructs. destruct (o_failed o); [reflexivity|]. simpl.
-  destruct (o_dead o); [reflexivity|discriminate].
+  unfold restore_dead. induction l as [|b l IH]; intros s a; simpl; [reflexivity|].
+  rewrite IH. reflexivity.
+Qed.
+Lemma pool_restore_dead l : forall s, pool (restore_dead s l) = pool s.
+Proof.
+  unfold restore_dead. induction l as [|a l IH]; intros s; simpl; [reflexivity|].
+  rewrite IH. reflexivity.
+Qed.
+Lemma nonce_restore_dead l : forall s a, a ∉ l -> nonce_of (restore_dead s l) a = nonce_of s a.
+Proof.
+  unfold restore_dead. induction l as [|b l IH]; intros s a Hn; simpl; [reflexivity|].
+  rewrite IH by (intros H; apply Hn; right; exact H).
+  unfold nonce_of, drop_account; simpl.
+  rewrite lookup_delete_ne; [reflexivity|]. intros ->. apply Hn. left.
+Qed.
+
+(* the account survives the transaction: it did not execute SELFDESTRUCT (an externally owned
+   sender has no code to do so) *)
+Definition survives (o : oracle) (a : addr) : Prop := o_failed o = true \/ a ∉ o_dead o.
+
+Lemma balance_finalised o X b :
+  balance (if o_failed o then X else restore_dead X (o_dead o)) b = balance X b.
+Proof. destruct (o_failed o); [reflexivity|apply balance_restore_dead]. Qed.
+Lemma nonce_finalised o X a : survives o a ->
+  nonce_of (if o_failed o then X else restore_dead X (o_dead o)) a = nonce_of X a.
+Proof.
+  intros [H|H]; [rewrite H; reflexivity|].
+  destruct (o_failed o); [reflexivity|apply nonce_restore_dead; exact H].
 Qed.
 
 Lemma exec_state_balance s e t o a :
-  selfdestructs o = false ->
   balance (exec_state s e t o) a =
     balance s a
     + (if decide (a = t_from t)
@@ -238,9 +263,8 @@ Lemma exec_state_balance s e t o a :
     + (if decide (a = recipient e t) then moved t (o_failed o) else 0)
     + (if o_failed o then 0 else delta_int (o_int o) a).
 Proof.
-  intros Hsd. unfold exec_state, gas_u64, moved.
-  rewrite (no_dead_id o) by exact Hsd.
-  rewrite balance_add_pool, balance_add_bal.
+  unfold exec_state, gas_u64, moved.
+  rewrite balance_add_pool, balance_finalised, balance_add_bal.
   generalize (recipient e t) as r. generalize (t_from t) as fr. intros fr r.
   destruct (o_failed o).
   - rewrite !balance_set_nonce, !balance_add_bal.
@@ -253,17 +277,11 @@ Proof.
     repeat destruct (decide _); subst; try congruence; lia.
 Qed.
 
-Lemma pool_restore_dead pre l : forall s, pool (restore_dead pre s l) = pool s.
-Proof.
-  unfold restore_dead. induction l as [|a l IH]; intros s; simpl; [reflexivity|].
-  rewrite IH. reflexivity.
-Qed.
-
 Lemma exec_state_pool s e t o :
   pool (exec_state s e t o) = pool s + t_price t * (gas_u64 t - gas_final (gas_u64 t) o).
 Proof.
   unfold exec_state. rewrite pool_add_pool.
-  assert (Hp : forall X, pool (if o_failed o then X else restore_dead s X (o_dead o)) = pool X)
+  assert (Hp : forall X, pool (if o_failed o then X else restore_dead X (o_dead o)) = pool X)
     by (intros X; destruct (o_failed o); [reflexivity|apply pool_restore_dead]).
   rewrite Hp, pool_add_bal.
   destruct (o_failed o).
@@ -272,7 +290,7 @@ Proof.
 Qed.
 
 Lemma exec_state_nonce s e t o a :
-  selfdestructs o = false ->
+  survives o a ->
   recipient e t <> t_from t \/ is_create t = false \/ o_failed o = true ->
   nonce_of (exec_state s e t o) a =
     if decide (a = t_from t) then nonce_of s (t_from t) + 1
@@ -281,8 +299,7 @@ Lemma exec_state_nonce s e t o a :
     else nonce_of s a.
 Proof.
   intros Hsd Hside. unfold exec_state.
-  rewrite (no_dead_id o) by exact Hsd.
-  rewrite nonce_add_pool, nonce_add_bal.
+  rewrite nonce_add_pool, (nonce_finalised o _ a Hsd), nonce_add_bal.
   destruct (o_failed o) eqn:Ef.
   - rewrite nonce_set_nonce, nonce_add_bal, andb_false_r.
     destruct (decide (a = t_from t)); [reflexivity|].
@@ -305,12 +322,12 @@ Lemma exact_charge s e t o f used s' :
   deliver_olvm s e t o = (Executed f used, s') ->
   f = o_failed o /\ 0 < used <= t_gas t /\
   pool s' = pool s + used * t_price t /\
-  (selfdestructs o = false -> forall a, balance s' a =
+  (forall a, balance s' a =
      balance s a
      + (if decide (a = t_from t) then - (used * t_price t + moved t f) else 0)
      + (if decide (a = recipient e t) then moved t f else 0)
      + (if f then 0 else delta_int (o_int o) a)) /\
-  (selfdestructs o = false -> recipient e t <> t_from t ->
+  (survives o (t_from t) -> recipient e t <> t_from t ->
    nonce_of s' (t_from t) = nonce_of s (t_from t) + 1).
 Proof.
   intros Hwf Hd.
@@ -321,7 +338,7 @@ Proof.
     split; [reflexivity|]. split; [exact Hu|].
     split; [rewrite exec_state_pool, Hg; lia|].
     split.
-    + intros Hsd a. rewrite exec_state_balance by exact Hsd. unfold gas_u64 in Hg. rewrite Hg. reflexivity.
+    + intros a. rewrite exec_state_balance. unfold gas_u64 in Hg. rewrite Hg. reflexivity.
     + intros Hsd Hne. rewrite exec_state_nonce by (try exact Hsd; left; exact Hne).
       destruct (decide (t_from t = t_from t)); [reflexivity|congruence].
 Qed.
@@ -371,14 +388,13 @@ Proof.
 Qed.
 
 Lemma conservation s e t o f used s' l :
-  well_formed e t o -> selfdestructs o = false ->
+  well_formed e t o ->
   deliver_olvm s e t o = (Executed f used, s') ->
   NoDup l -> t_from t ∈ l -> recipient e t ∈ l -> (forall p, p ∈ o_int o -> p.1 ∈ l) ->
   total_over s' l = total_over s l + (if f then 0 else sum_int (o_int o)).
 Proof.
-  intros Hwf Hsd Hd Hnd Hfrom Hto Hint.
+  intros Hwf Hd Hnd Hfrom Hto Hint.
   destruct (exact_charge s e t o f used s' Hwf Hd) as (Hf & Hu & Hpool & Hbal & _).
-  specialize (Hbal Hsd).
   rewrite !total_over_sum, Hpool.
   rewrite (sum_over_ext _ _ l Hbal).
   rewrite !sum_over_plus.
@@ -394,45 +410,58 @@ Qed.
 
 (* ---------- nonce rule ---------- *)
 Lemma executed_nonce_exact s e t o f used s' :
-  well_formed e t o -> nonce_gap s t = false ->
+  well_formed e t o ->
   deliver_olvm s e t o = (Executed f used, s') -> t_nonce t = nonce_of s (t_from t).
 Proof.
-  intros Hwf Hgap Hd.
+  intros Hwf Hd.
   destruct (deliver_olvm_cases s e t o Hwf) as [(Hs & [Ho|Ho] & _)|(Hp & _)].
   - rewrite Hd in Ho. discriminate.
   - rewrite Hd in Ho. discriminate.
-  - destruct Hp as (_ & Hn & _). unfold nonce_gap in Hgap. rewrite evm_nonce_eq in Hgap. lia.
+  - destruct Hp as (_ & Hn & _). lia.
 Qed.
 
-(* an executed exact-nonce transaction can never execute again, in any encoding, with any
-   interpreter behaviour *)
+(* a transaction whose nonce is not the account's nonce is never executed, whatever its
+   encoding, the environment and the interpreter's behaviour *)
+Lemma stale_nonce_not_executed s e t o :
+  well_formed e t o -> nonce_of s (t_from t) <> t_nonce t ->
+  forall f u, (deliver_olvm s e t o).1 <> Executed f u.
+Proof.
+  intros Hwf Hne f u H.
+  destruct (deliver_olvm_cases s e t o Hwf) as [(Hs & [Ho|Ho] & _)|(Hp & _)].
+  - rewrite Ho in H. discriminate.
+  - rewrite Ho in H. discriminate.
+  - destruct Hp as (_ & Hn & _). contradiction.
+Qed.
+
+(* an executed transaction can never execute again: the account nonce is then above its nonce *)
 Lemma no_second_execution s e t o f used s' e2 o2 :
-  well_formed e t o -> well_formed e2 t o2 -> nonce_gap s t = false ->
-  selfdestructs o = false -> recipient e t <> t_from t ->
+  well_formed e t o -> well_formed e2 t o2 ->
+  survives o (t_from t) -> recipient e t <> t_from t ->
   deliver_olvm s e t o = (Executed f used, s') ->
+  t_nonce t < nonce_of s' (t_from t) /\
   forall f2 u2, (deliver_olvm s' e2 t o2).1 <> Executed f2 u2.
 Proof.
-  intros Hwf Hwf2 Hgap Hsd Hne Hd f2 u2 H2.
-  pose proof (executed_nonce_exact s e t o f used s' Hwf Hgap Hd) as Hn.
+  intros Hwf Hwf2 Hsd Hne Hd.
+  pose proof (executed_nonce_exact s e t o f used s' Hwf Hd) as Hn.
   destruct (exact_charge s e t o f used s' Hwf Hd) as (_ & _ & _ & _ & Hnonce).
   specialize (Hnonce Hsd Hne).
-  destruct (deliver_olvm_cases s' e2 t o2 Hwf2) as [(Hs & [Ho|Ho] & _)|(Hp & _ & _ & Heq)].
-  - rewrite Ho in H2. discriminate.
-  - rewrite Ho in H2. discriminate.
-  - destruct Hp as (_ & Hn2 & _). lia.
+  split; [lia|].
+  apply stale_nonce_not_executed; [exact Hwf2|lia].
 Qed.
 
-(* ---------- a transaction accepted by CheckTx on the same ledger passes the pre-checks ---------- *)
+(* ---------- a transaction accepted by CheckTx on the same ledger, carrying exactly the
+   account's nonce, passes the pre-checks ---------- *)
 Lemma validated_executes s e t o min_fee :
-  well_formed e t o -> validate s min_fee t = true ->
+  well_formed e t o -> validate s min_fee t = true -> nonce_gap s t = false ->
   e_dup e = false -> e_sender_code e = false -> gas_u64 t <= e_block_gas e ->
   exists f u, (deliver_olvm s e t o).1 = Executed f u.
 Proof.
-  intros Hwf Hv Hdup Hcode Hbg.
+  intros Hwf Hv Hgap Hdup Hcode Hbg.
   destruct (deliver_olvm_cases s e t o Hwf) as [(_ & _ & Hnp)|(_ & _ & _ & Heq)].
   2:{ rewrite Heq. eauto. }
   exfalso. apply Hnp.
-  unfold validate in Hv. rewrite evm_nonce_eq in Hv. unfold native_view in Hv.
+  unfold validate in Hv. unfold nonce_gap in Hgap. rewrite evm_nonce_eq in Hv, Hgap.
+  unfold native_view in Hv.
   repeat (apply andb_prop in Hv; destruct Hv as [Hv ?]).
   assert (0 <= gas_u64 t) by (unfold gas_u64; apply Z.mod_pos_bound; lia).
   unfold passes.
